@@ -35,6 +35,14 @@ class Dispatch:
         self.sf = tv.Side('f', u.name, u.params, u.arrays, common, None)
         self.gf0 = tv.rewrite_cfg(cfgm.build(list(u.body)), self.sf)
         ctree, self.lo = cpp2ir.lower_function(fn, self.sigs)
+        # file-local helpers of genbbsub.cc that are not the port of a reference unit are expanded at their call sites
+        mapped = {id(f) for fs in tvrun.cpp_candidates(self.prog).values() for f in fs}
+        helpers = {f['name']: f for f in self.prog.functions.values()
+                   if f.get('file') == fn.get('file') and f is not fn and not f.get('method') and
+                   (id(f) not in mapped or f['name'].lower() not in self.units)}
+        helpers = {k: v for k, v in helpers.items() if k.lower() not in self.units and ('decay0_' + k).lower() not in self.units}
+        if helpers:
+            ctree = tvrun.inline_helpers(ctree, helpers, self.sigs)
         self.sc = tv.Side('c', fn['name'], [p['name'] for p in fn['params']])
         self.gc0 = tv.rewrite_cfg(cfgm.build(ctree), self.sc)
         self.gf0 = cfgm.compact(self.gf0, drop=('nop', 'io'))
